@@ -7,7 +7,8 @@
    call raising.  It returns the new store, the event log (fit calls, predict calls, writes) and
    the outcome. *)
 From Coq Require Import ZArith List Bool.
-Require Import SkV.Lib.Base SkV.Lib.ZRange SkV.C19.Model SkV.C19.Store SkV.C19.Proofs SkV.C19.Grid.
+Require Import SkV.Lib.Base SkV.Lib.ZRange SkV.C19.Model SkV.C19.Store SkV.C19.Proofs SkV.C19.Grid
+  SkV.C19.Gen SkV.C19.Bridge.
 Import ListNotations.
 Open Scope Z_scope.
 
@@ -217,6 +218,66 @@ Theorem C19_illegal_flags_rejected : forall fitf predf hdd fl fail l st,
   run fitf predf hdd fl fail l st = (st, [], Rejected).
 Proof. exact run_rejects. Qed.
 Print Assumptions C19_illegal_flags_rejected.
+
+(* the model the theorems above are about IS the control skeleton of the source: `gen_*` are the
+   definitions regenerated on this run from orchestration.py / results.py / base.py
+   (translator/orch_c19.py -> C19/Gen.v).  fit_predict = generated flag validation, then the loop
+   over the generated iteration order with the generated loop body (three existence checks, skip
+   test, fit / save fitted strategy / predict train / predict test under the source's guards),
+   then the generated save(); every store effect of a step is a generated store operation; a stored
+   record keeps (index, y_true, y_pred) and load_predictions hands back exactly these, reading
+   floats with the round-trip parser; every fold works on a fresh clone *)
+Theorem C19_model_is_the_source_skeleton :
+  (forall fitf predf hdd fl fail strats data st,
+     run fitf predf hdd fl fail (tasks_of strats data) st =
+     if gen_rejects fl then (st, [], Rejected)
+     else
+       let '(c, ev, s) := run_tasks fitf predf hdd fl fail (gen_tasks_of strats data) (st, 0, 0) in
+       match s with
+       | Running => (gen_save hdd (cstore c), ev, Done)
+       | Crashed => (cstore c, ev, Crash)
+       | NotImpl => (cstore c, ev, NotImplemented)
+       end) /\
+  (forall hdd fl st t, plan_task hdd fl st t = gen_plan_task hdd fl st t) /\
+  (forall strats data, tasks_of strats data = gen_tasks_of strats data) /\
+  (forall hdd k st, has hdd k st = gen_has_pred hdd k st /\ has hdd k st = gen_has_fit hdd k st) /\
+  (forall s d st, append_key s d st = gen_append_key s d st) /\
+  (forall hdd st, save hdd st = gen_save hdd st) /\
+  (forall st f it, load st f it = gen_load st f it) /\
+  (forall hdd i yt yp, gen_stored hdd i yt yp = Pred i yt yp /\
+                       gen_loaded hdd (gen_stored hdd i yt yp) = Some (i, yt, yp)) /\
+  gen_float_round_trip = true /\ gen_clone_per_fold = true.
+Proof.
+  split; [exact run_follows_generated_skeleton|].
+  split; [intros; symmetry; apply gen_plan_task_is_plan_task|].
+  split; [intros; symmetry; apply gen_tasks_of_is_tasks_of|].
+  split; [intros; split; symmetry; [apply gen_has_pred_is_has|apply gen_has_fit_is_has]|].
+  split; [intros; symmetry; apply gen_append_key_is_append_key|].
+  split; [intros; symmetry; apply gen_save_is_save|].
+  split; [intros; symmetry; apply gen_load_is_load|].
+  split; [intros; split; [apply gen_stored_is_record|apply gen_loaded_returns_stored]|].
+  split; [exact gen_float_round_trip_holds|exact gen_clone_per_fold_holds].
+Qed.
+Print Assumptions C19_model_is_the_source_skeleton.
+
+(* every store effect of one step of the run is a generated store operation of results.py *)
+Theorem C19_steps_use_the_source_store_operations : forall fitf predf hdd fail o st nf np,
+  exec_op fitf predf hdd fail o (st, nf, np) =
+  match o with
+  | OReg t => ((gen_append_key (ts t) (td t) st, nf, np), [], Running)
+  | OFit t => ((st, nf + 1, np), [EFit t], if fails_fit fail (nf + 1) then Crashed else Running)
+  | OSave t =>
+      match gen_save_fitted hdd (tkey t IFit) (Fit (fit_state fitf t)) (ts t) (td t) st with
+      | Some st' => ((st', nf, np), [EWrite (tkey t IFit)], Running)
+      | None => ((st, nf, np), [], NotImpl)
+      end
+  | OPred t it =>
+      if fails_pred fail (np + 1) then ((st, nf, np + 1), [EPred t it], Crashed)
+      else ((gen_save_predictions hdd (tkey t it) (expect fitf predf t it) (ts t) (td t) st,
+             nf, np + 1), [EPred t it; EWrite (tkey t it)], Running)
+  end.
+Proof. exact exec_op_uses_generated_store_ops. Qed.
+Print Assumptions C19_steps_use_the_source_store_operations.
 
 (* the hypotheses are satisfiable by a non-trivial instance: 2 strategies x 1 dataset x 2 folds,
    all options on, the 3rd predict call fails after 4 entries were written and 2 fits made; the
